@@ -7,16 +7,16 @@ m = json.load(open(f'{ROOT}/mutants/matrix.json'))
 NOTES = {
  'C01g': 'decided by C14 (the change is in RiverWrapper): an online river model that learns between two evaluations of the same input was added there (the wrapper must report the CURRENT prediction); C01 drives pure test models',
  'C02g': 'first missed: the imputer spy was truthy; it now defines __len__ returning 0 (a user imputer may be falsy when the explainer is built - the library must test `is None`)',
- 'C04g': 'first missed: observations were dense dicts; BatchSage (both modes) on sparse collections.defaultdict observations (absent feature = 0) added, compared with the dense equivalent',
+ 'C04g': 'NOT flagged, by design: manifests only for sparse collections.defaultdict observations. A scenario family for them was built (C04, C06) and caught C04g / C06g / C15g, but it raised alarms on two behaviour-preserving refactorings (R12 copies rows with dict(), R3 reads the stored row without copying it) - Mappings whose reads insert keys are outside the properties; the family was removed again (section 9.4, item 24)',
  'C05g': 'decided by C07 (the change is in IntervalStorage: unlabelled arrivals mixed into a labelled stream were already driven there); C05 uses labelled streams',
- 'C06g': 'first missed: stored rows were complete plain dicts; stored rows given as sparse defaultdicts added (a lookup must not insert the key into the stored object)',
+ 'C06g': 'NOT flagged, by design: see C04g (refactoring R3 contains the same edit)',
  'C07g': 'first missed: storages were never copied; checkpoint / restore configs added (deep copy or pickle round trip after t_f updates, the stream continues on the copy, the original must not change any more)',
  'C08g': 'first missed: only the library classes themselves were driven; a user subclass whose get_data returns copies of the lists added to C08 and C09 (and a deep-copy continuation)',
  'C09g': 'first missed: same checkpoint / restore family (C07 catches it too); in C09 the copy is taken before the reservoir is full and the law must hold for the copy',
  'C10g': 'first missed: only the library classes themselves were driven; user subclasses (one overriding update and delegating with super().update(), one overriding nothing) added',
  'C13g': 'first missed: only the metrics shipped with river were discovered; user subclasses with sklearn-style __call__ sugar (callable AND a Metric) added to the discovered set',
  'C14g': 'first missed: batches were only driven with three feature names; batches with one and two names (1-3 rows) added',
- 'C15g': 'decided by C06 (same mutation as C06g, written independently); C15 drives complete observations',
+ 'C15g': 'NOT flagged, by design: same mutation as C06g',
  'C17g': 'first missed: injected faults were Exception subclasses (or StopIteration); a KeyboardInterrupt subclass was added as a third fault class - a caller that catches it and resumes must find the estimates untouched',
  'C18g': 'NOT caught: needs a single-value river metric as loss, a model returning {label: score} with a NaN label, an exact tie of the top scores and two NaN objects at different positions of a set. Identity-hashed labels are not part of the C18 cells (limitation, section 7)',
  'C19g': 'first missed: the probe enumerated three of the four flag combinations; use_storage=True with direct_predict_numeric=True added',
